@@ -34,6 +34,11 @@ type c16Params struct {
 	GiveUp string
 	// NoStatus: the local Close uses StatusNoStatusRcvd, i.e. a Close frame with an empty payload
 	NoStatus bool
+	// BigStream: the streaming Writer's first chunk is larger than the write buffer
+	// (5000 bytes: part of the fragment stays buffered after the frame is written)
+	BigStream bool
+	// SlowPeer: the transport accepts 64 bytes and nothing more until 1 s
+	SlowPeer bool
 }
 
 type c16State struct {
@@ -52,6 +57,13 @@ func c16Setup(prm c16Params) func(c *fw.Ctx, name string) explore.Setup {
 				bg := vctx.Background()
 				if prm.Init == "limit" {
 					conn.SetReadLimit(5)
+				}
+				if prm.SlowPeer {
+					st.p.Window = 64
+					w.GoHarness("drainer", false, func() {
+						vtime.Sleep(time.Second)
+						st.p.SetWindow(0)
+					})
 				}
 				if prm.Stall {
 					st.p.Window = 3
@@ -95,7 +107,11 @@ func c16Setup(prm c16Params) func(c *fw.Ctx, name string) explore.Setup {
 						if err != nil {
 							return
 						}
-						if _, err = wr.Write(fill(0xB0, 5)); err != nil {
+						first := 5
+						if prm.BigStream {
+							first = 5000
+						}
+						if _, err = wr.Write(fill(0xB0, first)); err != nil {
 							return
 						}
 						if _, err = wr.Write(fill(0xB1, 5)); err != nil {
@@ -251,6 +267,10 @@ func c16Scenarios(tier string) []scenario {
 			add(c16Params{Name: "local-" + echo + "-w2", K: k, Init: "local", Echo: echo, Writers: 2}, P(1), P(2))
 		}
 		add(c16Params{Name: "local-early-ping", K: k, Init: "local", Echo: "early", Writers: 1, Pinger: true}, P(1), P(2))
+		// a streamed fragment larger than the write buffer against a local Close, with a fast and with a slow peer
+		add(c16Params{Name: "local-early-wbig", K: k, Init: "local", Echo: "early", Writers: 2, BigStream: true}, P(1), P(2))
+		add(c16Params{Name: "local-never-wbig-slowpeer", K: k, Init: "local", Echo: "never", Writers: 2, BigStream: true, SlowPeer: true}, P(2), P(3))
+		add(c16Params{Name: "peer-wbig-slowpeer", K: k, Init: "peer", Echo: "early", Writers: 2, BigStream: true, SlowPeer: true}, P(1), P(2))
 		// a Close frame without status code (empty payload), echoed late or never
 		add(c16Params{Name: "local-nostatus-late-w1", K: k, Init: "local", Echo: "late", Writers: 1, NoStatus: true}, P(2), P(3))
 		add(c16Params{Name: "local-nostatus-never-w2", K: k, Init: "local", Echo: "never", Writers: 2, NoStatus: true}, P(1), P(2))
